@@ -60,17 +60,26 @@ def test_mandatory_option_required(
             )
         )
     # A blank value would be written as a notice without a holder (or a
-    # contributor line without a name), which is not read back as given.
+    # contributor line without a name), and a value with a line break as one
+    # tag line followed by a stray comment line; neither is read back as given.
     for option, values in (
         ("--copyright", copyright_),
         ("--contributor", contributor),
     ):
-        if any(not value.strip() for value in values or ()):
-            raise click.UsageError(
-                _("Option '{option}' requires a non-empty value.").format(
-                    option=option
+        for value in values or ():
+            if not value.strip():
+                raise click.UsageError(
+                    _("Option '{option}' requires a non-empty value.").format(
+                        option=option
+                    )
                 )
-            )
+            if len(value.splitlines()) > 1:
+                raise click.UsageError(
+                    _(
+                        "The value of option '{option}' must not contain line"
+                        " breaks."
+                    ).format(option=option)
+                )
 
 
 def all_paths(
